@@ -11,6 +11,7 @@ import (
 	"fmt"
 	"go/constant"
 	"go/token"
+	"go/types"
 	"sort"
 	"strings"
 
@@ -90,8 +91,8 @@ func decisionTable(start *ssa.BasicBlock, cfg dtConfig) []dtLeaf {
 	}
 	// split evaluates a condition on the variable: the subsets of s on which
 	// it is true / false. ok=false if the condition is not of that form.
-	var split func(cond ssa.Value, s *relang.Set, b, from *ssa.BasicBlock, depth int) (t, f *relang.Set, ok bool)
-	split = func(cond ssa.Value, s *relang.Set, b, from *ssa.BasicBlock, depth int) (*relang.Set, *relang.Set, bool) {
+	var split func(cond ssa.Value, s *relang.Set, path []*ssa.BasicBlock, depth int) (t, f *relang.Set, ok bool)
+	split = func(cond ssa.Value, s *relang.Set, path []*ssa.BasicBlock, depth int) (*relang.Set, *relang.Set, bool) {
 		if depth > 8 {
 			return nil, nil, false
 		}
@@ -105,7 +106,7 @@ func decisionTable(start *ssa.BasicBlock, cfg dtConfig) []dtLeaf {
 			}
 		case *ssa.UnOp:
 			if c.Op == token.NOT {
-				t, f, ok := split(c.X, s, b, from, depth+1)
+				t, f, ok := split(c.X, s, path, depth+1)
 				return f, t, ok
 			}
 		case *ssa.BinOp:
@@ -123,25 +124,33 @@ func decisionTable(start *ssa.BasicBlock, cfg dtConfig) []dtLeaf {
 				}
 			}
 		case *ssa.Phi:
-			// a boolean && / || value: resolved by the edge we arrived on
-			if c.Block() == b && from != nil {
-				for i, p := range b.Preds {
-					if p == from {
-						return split(c.Edges[i], s, from, nil, depth+1)
+			// a boolean && / || value: resolved by the edge the path took into its block
+			for k := len(path) - 1; k >= 1; k-- {
+				if path[k] == c.Block() {
+					for i, p := range c.Block().Preds {
+						if p == path[k-1] {
+							return split(c.Edges[i], s, path[:k], depth+1)
+						}
 					}
+					break
 				}
 			}
 		}
 		return nil, nil, false
 	}
-	var walk func(b, from *ssa.BasicBlock, s *relang.Set, tags []string, depth int)
-	walk = func(b, from *ssa.BasicBlock, s *relang.Set, tags []string, depth int) {
+	var walk func(b *ssa.BasicBlock, path []*ssa.BasicBlock, s *relang.Set, tags []string, depth int)
+	walk = func(b *ssa.BasicBlock, prev []*ssa.BasicBlock, s *relang.Set, tags []string, depth int) {
+		path := append(append([]*ssa.BasicBlock{}, prev...), b)
+		var from *ssa.BasicBlock
+		if len(prev) > 0 {
+			from = prev[len(prev)-1]
+		}
 		steps++
 		if steps > cfg.Max || depth > 200 {
 			leaves = append(leaves, dtLeaf{s, "undecided:exploration limit", tags, b})
 			return
 		}
-		k := key{b, from, s.String(), strings.Join(tags, "&")}
+		k := key{b, from, s.String(), strings.Join(tags, "&") + pathKey(prev)}
 		if seen[k] {
 			return
 		}
@@ -152,14 +161,14 @@ func decisionTable(start *ssa.BasicBlock, cfg dtConfig) []dtLeaf {
 		}
 		switch last := b.Instrs[len(b.Instrs)-1].(type) {
 		case *ssa.Jump:
-			walk(b.Succs[0], b, s, tags, depth+1)
+			walk(b.Succs[0], path, s, tags, depth+1)
 		case *ssa.If:
-			if t, f, ok := split(last.Cond, s, b, from, 0); ok {
+			if t, f, ok := split(last.Cond, s, path, 0); ok {
 				if !t.Empty() {
-					walk(b.Succs[0], b, t, tags, depth+1)
+					walk(b.Succs[0], path, t, tags, depth+1)
 				}
 				if !f.Empty() {
-					walk(b.Succs[1], b, f, tags, depth+1)
+					walk(b.Succs[1], path, f, tags, depth+1)
 				}
 				return
 			}
@@ -175,9 +184,20 @@ func decisionTable(start *ssa.BasicBlock, cfg dtConfig) []dtLeaf {
 			if tag == "" {
 				tag = last.Cond.Name()
 			}
-			walk(b.Succs[0], b, s, appendTag(tags, tag+"=true"), depth+1)
-			walk(b.Succs[1], b, s, appendTag(tags, tag+"=false"), depth+1)
+			walk(b.Succs[0], path, s, appendTag(tags, tag+"=true"), depth+1)
+			walk(b.Succs[1], path, s, appendTag(tags, tag+"=false"), depth+1)
 		case *ssa.Return:
+			if len(last.Results) == 1 {
+				if t, f, ok := split(last.Results[0], s, path, 0); ok {
+					if !t.Empty() {
+						leaves = append(leaves, dtLeaf{t, "return:true", tags, b})
+					}
+					if !f.Empty() {
+						leaves = append(leaves, dtLeaf{f, "return:false", tags, b})
+					}
+					return
+				}
+			}
 			leaves = append(leaves, dtLeaf{s, "return", tags, b})
 		case *ssa.Panic:
 			leaves = append(leaves, dtLeaf{s, "panic", tags, b})
@@ -186,7 +206,37 @@ func decisionTable(start *ssa.BasicBlock, cfg dtConfig) []dtLeaf {
 		}
 	}
 	walk(start, nil, cfg.Dom, nil, 0)
+	_ = hasBoolPhi
 	return leaves
+}
+
+// pathKey distinguishes histories only when the function has boolean phis
+// (whose value depends on the path taken).
+var hasBoolPhi = false
+
+func pathKey(path []*ssa.BasicBlock) string {
+	if len(path) == 0 {
+		return ""
+	}
+	fn := path[0].Parent()
+	need := false
+	for _, b := range fn.Blocks {
+		for _, in := range b.Instrs {
+			if ph, ok := in.(*ssa.Phi); ok {
+				if bt, ok := ph.Type().Underlying().(*types.Basic); ok && bt.Kind() == types.Bool {
+					need = true
+				}
+			}
+		}
+	}
+	if !need {
+		return ""
+	}
+	var sb strings.Builder
+	for _, b := range path {
+		fmt.Fprintf(&sb, "/%d", b.Index)
+	}
+	return sb.String()
 }
 
 func appendTag(tags []string, t string) []string {
